@@ -59,7 +59,20 @@ def externals():
             raise NotHandled()
         return Obj("pattern", {"pattern": a[0]}, closed=True)
 
-    ext = {"compile": compile_, ".group": group, ".groups": groups}
+    def text_fn(name):
+        # textwrap.fill / wrap / shorten / dedent on concrete strings (the standard library's own function: text in, text out)
+        def f(a, k):
+            import textwrap
+            if not a or not isinstance(a[0], str):
+                raise NotHandled()
+            kw = {}
+            for n_, v_ in k.items():
+                kw[n_] = v_ if isinstance(v_, (bool, str)) or v_ is None else int(to_poly(v_).const_value())
+            pos = [x if isinstance(x, (bool, str)) or x is None else int(to_poly(x).const_value()) for x in a[1:]]
+            return getattr(textwrap, name)(a[0], *pos, **kw)
+        return f
+
+    ext = {"compile": compile_, ".group": group, ".groups": groups, "fill": text_fn("fill"), "wrap": text_fn("wrap"), "shorten": text_fn("shorten"), "dedent": text_fn("dedent")}
     for kind in ("search", "match", "fullmatch"):
         ext[kind] = modfn(kind)
         ext["." + kind] = meth(kind)
